@@ -37,15 +37,11 @@ async fn read_one_async(path: &Path) -> anyhow::Result<Item> {
     };
     read_one_from_slice(&input)
         .map_err(|err| {
+            // the markers and lines carried by these errors are cut out of the file's contents,
+            // which may be private key material: they must not end up in error messages or logs.
             let msg = match err {
-                Error::MissingSectionEnd { end_marker } => format!(
-                    "section end {:?} missing",
-                    String::from_utf8_lossy(&end_marker)
-                ),
-                Error::IllegalSectionStart { line } => format!(
-                    "illegal section start: {:?}",
-                    String::from_utf8_lossy(&line)
-                ),
+                Error::MissingSectionEnd { .. } => "section end marker missing".to_string(),
+                Error::IllegalSectionStart { .. } => "illegal section start".to_string(),
                 Error::Base64Decode(msg) => msg,
             };
             anyhow::anyhow!("failed to decode PEM file contents: {msg}")
